@@ -50,7 +50,8 @@ REQUIRED_BUCKETS = {
               "kill:cc_done", "kill:after_source_removal", "killcc:cc_write1", "killcc:cc_write2", "killcc:cc_done", "hazard_window_open_during_other_lookup", "publish:rename_observed",
               "first-use-of-missing-cache-directory:2proc", "first-use-of-missing-cache-directory:8proc", "retry:same-process",
               "peer-holds-unopened-library-while-other-build-fails", "system-build:free", "system-build:killed", "two-editions-of-one-model-id",
-              "forked-workers:parent-idle", "forked-workers:parent-built-another-model-first"],
+              "forked-workers:parent-idle", "forked-workers:parent-built-another-model-first",
+              "forked-workers:parent-thread-mid-build"],
 }
 REQUIRED_BUCKETS["thorough"] = REQUIRED_BUCKETS["quick"] + ["stress:4", "stress:8", "stress:16"]
 WATCHDOG_S = {"quick": 1800, "thorough": 4*3600}
@@ -216,7 +217,7 @@ def gen_cases(tier, seed):
     for n in (1, 3):
         cases.append({"id": "xfs/%d" % n, "kind": "xfs", "nproc": n, "group": "xfs-%d" % n, "cost": 2})
     # workers forked from one interpreter, which has or has not built another model itself before forking
-    for pre in ("none", "guinier"):
+    for pre in ("none", "guinier", "thread:guinier"):
         for n in (2, 3, 6):
             for r in range(1 if tier == "quick" else 6):
                 cases.append({"id": "forked/%s-%d-%d" % (pre, n, r), "kind": "forked", "nproc": n, "prebuild": pre, "rep": r,
@@ -716,6 +717,8 @@ def run_forked(case, rec):
         env = base_env(cache, ctrl, "F", "free")
         env.update({"RTM_C18_DELAY_%s" % g: "%.4f" % float(rng.choice([0, 0.002, 0.01, 0.05]))
                     for g in ("cc_write1", "cc_write2")})
+        if case["prebuild"].startswith("thread:"):
+            env["RTM_C18_DELAY_cc_write1"] = "1.5"      # the parent's compiler run is held while the workers are forked
         proc = subprocess.Popen([core.PY, FORK, MODEL, str(case["nproc"]), case["prebuild"]], env=env,
                                 stdout=subprocess.PIPE, stderr=subprocess.PIPE, start_new_session=True, text=True, cwd=HERE)
         res = result_of(proc, timeout=300)
@@ -731,7 +734,11 @@ def run_forked(case, rec):
             if r.get("ok"):
                 rec.check("values_correct", r["Iq"] == ref, {"process": t, "got": r["Iq"], "ref": ref})
         judge_trace(rec, ino.stop(), {"forked_workers": case["nproc"], "parent_built_first": case["prebuild"]})
-        rec.bucket("forked-workers:parent-" + ("built-another-model-first" if case["prebuild"] != "none" else "idle"))
+        if case["prebuild"].startswith("thread:"):
+            rec.bucket("forked-workers:parent-thread-mid-build" if res.get("forked_while_thread_building")
+                       else "forked-workers:parent-thread-finished-early")
+        else:
+            rec.bucket("forked-workers:parent-" + ("built-another-model-first" if case["prebuild"] != "none" else "idle"))
         rec.set_shape(("forked", case["nproc"], case["prebuild"], case["rep"]), nontrivial=len(workers) >= 2)
         rec.observe(forked_workers=case["nproc"], parent_built_first=case["prebuild"],
                     workers_ok=sum(1 for r in workers.values() if r.get("ok")))
